@@ -1,0 +1,66 @@
+//! Verification probe, compiled only with `--cfg abyssiniandb_verif`.
+//!
+//! Exposes the compiled-in layout constants and the crate's own slot sizing code
+//! (no I/O), and a thread-local log of flush/sync events of the three files of a map.
+use super::inner::verif;
+use super::{DbBytes, DbI64, DbString, DbU64, DbVu64};
+use crate::DbMapKeyType;
+use std::cell::RefCell;
+
+/// the compiled-in constants, one `name value` per line.
+pub fn consts() -> String {
+    let mut s = String::new();
+    s.push_str(&verif::key::consts());
+    s.push_str(&verif::val::consts());
+    s.push_str(&verif::htx::consts());
+    s.push_str(&format!("sig_string {:?}\n", DbString::signature()));
+    s.push_str(&format!("sig_bytes {:?}\n", DbBytes::signature()));
+    s.push_str(&format!("sig_i64 {:?}\n", DbI64::signature()));
+    s.push_str(&format!("sig_u64 {:?}\n", DbU64::signature()));
+    s.push_str(&format!("sig_vu64 {:?}\n", DbVu64::signature()));
+    s
+}
+
+/// calls `f(len, size field length, piece length, slot size)` for every value length `0..=max`.
+pub fn value_sizing(max: u32, f: &mut dyn FnMut(u32, u32, u32, u32)) {
+    verif::val::sizing(max, f)
+}
+
+/// calls `f(value offset, next offset, size field length, piece length, slot size)`
+/// for a key of `klen` bytes and every pair of `offs`.
+pub fn key_sizing(klen: u32, offs: &[u64], f: &mut dyn FnMut(u64, u64, u32, u32, u32)) {
+    verif::key::sizing(klen, offs, f)
+}
+
+thread_local! {
+    static TRACE: RefCell<(u64, Vec<String>)> = RefCell::new((0, Vec::new()));
+}
+
+/// records an event `<seq>:<file>:<what>`.
+pub(crate) fn trace(file: &str, what: &str) {
+    TRACE.with(|t| {
+        let mut t = t.borrow_mut();
+        t.0 += 1;
+        let seq = t.0;
+        t.1.push(format!("{seq}:{file}:{what}"));
+    });
+}
+
+/// counts a buffered write (only the last one of a run is kept in the log).
+pub(crate) fn trace_write(file: &str) {
+    TRACE.with(|t| {
+        let mut t = t.borrow_mut();
+        t.0 += 1;
+        let seq = t.0;
+        let ev = format!("{seq}:{file}:write");
+        match t.1.last_mut() {
+            Some(last) if last.ends_with(&format!(":{file}:write")) => *last = ev,
+            _ => t.1.push(ev),
+        }
+    });
+}
+
+/// returns and clears the event log of this thread.
+pub fn drain_trace() -> Vec<String> {
+    TRACE.with(|t| std::mem::take(&mut t.borrow_mut().1))
+}
